@@ -603,11 +603,16 @@ def _parse_transf_v33(raw, system, max_bus):
             x.append((data[1][4] + data[1][1] - data[1][7])/2)
             x.append((data[1][7] + data[1][4] - data[1][1])/2)
 
+            # STAT: 0 - out of service, 1 - in service, 2 - only winding 2 out of service,
+            # 3 - only winding 3 out of service, 4 - only winding 1 out of service
+            stat = data[0][11]
+            u_winding = [int(stat not in (0, 4)), int(stat not in (0, 2)), int(stat not in (0, 3))]
+
             for i in range(0, 3):
                 param = {'trans': True,
                          'bus1': data[0][i],
                          'bus2': new_bus,
-                         'u': data[0][11],
+                         'u': u_winding[i],
                          # the magnetising admittance MAG1 + j MAG2 belongs to the winding-1 bus, once
                          'g1': data[0][7] if i == 0 else 0.0,
                          'b1': data[0][8] if i == 0 else 0.0,
